@@ -33,6 +33,8 @@ var shapes = []struct {
 	{"gql-mut", beSpec{pattern: "/g4", method: "POST", gql: &gqlSpec{mutation: true, vars: "static"}}},
 	{"gql-mut-get", beSpec{pattern: "/g5", method: "POST", gql: &gqlSpec{mutation: true, get: true, vars: "none"}}},
 	{"gql-post-none", beSpec{pattern: "/g6/{id}", gql: &gqlSpec{vars: "none"}}},
+	{"gql-post-long", beSpec{pattern: "/g7", gql: &gqlSpec{vars: "none", long: true}}},
+	{"gql-post-hf", beSpec{pattern: "/g8", hdrs: []string{"Content-Length", "Content-Type", "X-A"}, gql: &gqlSpec{vars: "static", long: true}}},
 }
 
 func shape(name string) beSpec {
@@ -66,6 +68,14 @@ var reqBadBody = reqSpec{
 var reqGqlNames = reqSpec{
 	hdr: map[string][]string{"X-A": {"1"}},
 	qry: map[string][]string{"query": {"client-q"}, "operationName": {"client-op"}, "variables": {"client-v"}, "x": {"1"}},
+	par: map[string]string{"Id": "42"},
+}
+
+// a client request that already carries Content-Length / Content-Type (a router forwards
+// them with input_headers or "*"): the GraphQL transports set both for their own body
+var reqCL = reqSpec{
+	hdr: map[string][]string{"Content-Length": {"0"}, "Content-Type": {"text/plain"}, "X-A": {"1"}},
+	qry: map[string][]string{"x": {"1"}},
 	par: map[string]string{"Id": "42"},
 }
 
@@ -103,6 +113,13 @@ func scenarios(cfg out.Config, r *rng.R, raceMode bool) []scenario {
 	add("corpus", "GET", 1, reqB, "lower-get", "head") // all GET/HEAD by ToUpper: out of scope, body dropped
 	add("corpus", "OPTIONS", 1, reqB, "plain", "head")
 	add("corpus", "GET", 1, reqGqlNames, "gql-get", "plain", "qf")
+	// several GraphQL POST-transport siblings under shallow clones (backend method GET), bodies
+	// of different lengths, client Content-Length / Content-Type present
+	add("corpus", "GET", 1, reqCL, "gql-post", "gql-post-long")
+	add("corpus", "GET", 1, reqCL, "gql-post-long", "gql-post-none", "gql-post")
+	add("corpus", "GET", 1, reqCL, "gql-post-hf", "gql-post", "plain")
+	add("corpus", "GET", 1, reqCL, "gql-post-long", "gql-get", "hf-all")
+	add("corpus", "HEAD", 2, reqCL, "gql-post-none", "gql-post-long")
 	add("corpus", "GET", 2, reqGqlNames, "plain", "gql-get-qf")
 	add("corpus", "POST", 1, reqGqlNames, "post", "gql-get", "plain")
 
@@ -124,6 +141,9 @@ func scenarios(cfg out.Config, r *rng.R, raceMode bool) []scenario {
 			for _, cc := range ccs {
 				if raceMode && !cfg.Thorough() && ((cc == 2 && (i+j)%3 != 0) || (cc == 1 && (i+2*j)%3 != 0)) {
 					continue
+				}
+				if s1.b.gql != nil && s2.b.gql != nil && !s1.b.gql.get {
+					add("pair", "GET", cc, reqCL, s1.name, s2.name)
 				}
 				add("pair", "GET", cc, reqA, s1.name, s2.name)
 				if (i*7+j*3+cc)%4 == 0 || cfg.Thorough() {
@@ -169,7 +189,7 @@ func scenarios(cfg out.Config, r *rng.R, raceMode bool) []scenario {
 				b.qs = append(b.qs, r.Pick(qPool))
 			}
 			if r.Chance(2, 5) {
-				b.gql = &gqlSpec{get: r.Bool(), mutation: r.Chance(1, 3), vars: []string{"none", "param", "static"}[r.Intn(3)]}
+				b.gql = &gqlSpec{get: r.Bool(), mutation: r.Chance(1, 3), vars: []string{"none", "param", "static"}[r.Intn(3)], long: r.Bool()}
 			}
 			sc.bs = append(sc.bs, b)
 			if perBackendCC {
@@ -179,6 +199,11 @@ func scenarios(cfg out.Config, r *rng.R, raceMode bool) []scenario {
 		rq := reqSpec{hdr: map[string][]string{}, qry: map[string][]string{}, par: map[string]string{"Id": []string{"42", "x_y", "A"}[r.Intn(3)]}}
 		for j, m := 0, r.Intn(5); j < m; j++ {
 			h := r.Pick(hdrPool)
+			if r.Chance(1, 4) {
+				h = "Content-Length"
+				rq.hdr[h] = []string{fmt.Sprint(r.Intn(300))}
+				continue
+			}
 			rq.hdr[h] = append(rq.hdr[h], fmt.Sprintf("h%d", r.Intn(100)))
 		}
 		for j, m := 0, r.Intn(4); j < m; j++ {
@@ -199,11 +224,11 @@ func scenarios(cfg out.Config, r *rng.R, raceMode bool) []scenario {
 // consecutive requests differ in exactly what the property speaks of: header names and
 // values, query names and values, params, body (present / other length / invalid / absent)
 var reuseSeq = []reqSpec{
-	{hdr: map[string][]string{"X-A": {"1"}, "X-B": {"2"}, "User-Agent": {"ua1"}}, qry: map[string][]string{"x": {"1"}, "y": {"2"}}, par: map[string]string{"Id": "42"}, body: sp(`{"v":1}`)},
+	{hdr: map[string][]string{"X-A": {"1"}, "X-B": {"2"}, "User-Agent": {"ua1"}, "Content-Length": {"7"}, "Content-Type": {"text/plain"}}, qry: map[string][]string{"x": {"1"}, "y": {"2"}}, par: map[string]string{"Id": "42"}, body: sp(`{"v":1}`)},
 	{hdr: map[string][]string{"X-C": {"9"}, "X-B": {"3", "4"}}, qry: map[string][]string{"y": {"5"}, "z": {"1"}}, par: map[string]string{"Id": "7"}, body: sp(`{"v":22222,"w":"longer body"}`)},
 	{hdr: map[string][]string{}, qry: map[string][]string{}, par: map[string]string{"Id": "a-b"}},
 	{hdr: map[string][]string{"X-A": {"only"}, "Accept": {"*/*"}}, qry: map[string][]string{"x": {"8", "9"}, "variables": {"client"}}, par: map[string]string{"Id": "42"}, body: sp(`not json`)},
-	{hdr: map[string][]string{"X-A": {"1"}, "X-B": {"2"}, "User-Agent": {"ua1"}}, qry: map[string][]string{"x": {"1"}, "y": {"2"}}, par: map[string]string{"Id": "42"}, body: sp(`{"v":1}`)},
+	{hdr: map[string][]string{"X-A": {"1"}, "X-B": {"2"}, "User-Agent": {"ua1"}, "Content-Length": {"7"}, "Content-Type": {"text/plain"}}, qry: map[string][]string{"x": {"1"}, "y": {"2"}}, par: map[string]string{"Id": "42"}, body: sp(`{"v":1}`)},
 }
 
 func reuseScenarios(cfg out.Config, r *rng.R, raceMode bool) (seqs, concs []scenario) {
@@ -218,6 +243,7 @@ func reuseScenarios(cfg out.Config, r *rng.R, raceMode bool) (seqs, concs []scen
 		mk("reuse", "POST", 1, shape("gql-mut"), shape("post"), shape("qf-hf"), hfPartial),
 		mk("reuse", "POST", 2, shape("gql-mut-get"), shape("put"), qfPartial),
 		mk("reuse", "GET", 1, shape("gql-post"), shape("gql-get"), shape("gql-post-none")),
+		mk("reuse", "GET", 1, shape("gql-post"), shape("gql-post-long"), shape("gql-post-hf")),
 		mk("reuse", "GET", 3, hfPartial),
 		mk("reuse", "GET", 2, qfPartial),
 		mk("reuse", "POST", 3, shape("gql-mut")),
